@@ -46,6 +46,8 @@ def check_unit(rep):
                 t._prev_head = h0
                 t._head = h0 if variant != 'curve-moved' else V.real('head_now', 3.5, 22)
                 t._demand = q
+                # the reported tank demand already is the net inflow (links in - links out - leak); the leak rate is stored next to it
+                t._leak_demand = V.real('leak_rate', 0, 1)
                 pts = None
                 if variant == 'cylinder':
                     t._diameter = V.pos('D', 0.5, 100)
@@ -95,6 +97,7 @@ def replay_unit(i):
     t._prev_head = i['prev_head']
     t._head = i.get('head_now', i['prev_head'])
     t._demand = i['q']
+    t._leak_demand = i.get('leak_rate', 0.0)
     pts = [(0.0, 0.0), (4.0, 100.0), (20.0, 1700.0)]
     if variant == 'cylinder':
         t.diameter = i['D']
